@@ -77,6 +77,7 @@ func init() {
 		Assum: []string{
 			"reference size/fee arithmetic in /verif/internal/refmoney (math/big), validated at start-up against the public sizes of the standard P2PKH layouts",
 			"the dust limit is the library's exported constant bt.DustLimit",
+			"'estimated final size' is the model's: current unlocking scripts kept, a 107-byte placeholder for every empty one (C11 observes that the library's EstimateSize coincides with it on every case it runs)",
 			"domain: fee quotes with bytes >= 1 and at most 10^6 sat/byte, amounts <= 21e14 sat, every spent script P2PKH, destinations are non-data scripts; the ambiguous empty transaction is never generated",
 			"inputs counted as 'signed' carry the unlocking script produced by unlocker.Simple for the final amounts (or, when the signature length kept changing, for amounts a few satoshis off); only its length matters to the property",
 		},
@@ -193,6 +194,9 @@ func init() {
 	p.Floor = func(a *mon.Agg) string {
 		// every cell of relation x destination x count class x rate class that can exist
 		counts := c10Counts
+		if _, thorough := a.Cov["phase:grid-65535"]; thorough {
+			counts = append(append([]int{}, c10Counts...), 65535)
+		}
 		for _, rel := range c10FloorRels {
 			for _, dest := range c10Dests {
 				for _, count := range counts {
@@ -657,6 +661,9 @@ func c10Judge(c *mon.Ctx, in *c10In) {
 		slack := refmoney.Slack(q)
 		upper := new(big.Int).Add(req, slack)
 		c.Count("clause:fee-bounds-evaluated")
+		if c10ChangeValue(before, after, designated) <= uint64(bt.DustLimit) {
+			c.Count("added:change-value-at-or-below-dust(not judged: the statement does not forbid it)")
+		}
 		switch {
 		case left.Cmp(req) < 0:
 			c.Violationf("C10:underpay:"+causeKey,
